@@ -15,6 +15,8 @@ for sid in ids:
     d = f"/verif/seeded/{sid}"
     meta = json.load(open(f"{d}/meta.json"))
     prop = meta["property"]
+    if meta.get("not_observable"):
+        print(sid, "-> not observable through the exported API (kept for the record)", flush=True); continue
     extra = meta.get("also_checked_with", [])
     sh(f"git -C {WT} checkout -q -- . && git -C {WT} clean -fdq")
     sh(f"git -C {WT} checkout -q --detach HEAD 2>/dev/null; git -C {WT} reset -q --hard $(git -C /repo rev-parse HEAD)")
